@@ -475,7 +475,7 @@ func stress(id string, seed uint64, rounds int) runner.Result {
 	var fails []string
 	var n int64
 	for round := 0; round < rounds && len(fails) == 0; round++ {
-		kind := round % 5
+		kind := round % 7
 		var barrier int32
 		wait := func(k int32) {
 			atomic.AddInt32(&barrier, 1)
@@ -584,6 +584,60 @@ func stress(id string, seed uint64, rounds int) runner.Result {
 			if bad > 0 {
 				fails = append(fails, fmt.Sprintf("round %d: closed-implies-visible: %d observer(s) saw the Signal's channel closed while Get/IsSet/Err still reported it unset", round, bad))
 			}
+		case 5: // Signal: pollers of Get/Err/IsSet racing the only Set: set implies the winner's value
+			var s drpcsignal.Signal
+			var wg sync.WaitGroup
+			var bad int32
+			wg.Add(3)
+			for i := 0; i < 2; i++ {
+				i := i
+				go func() {
+					defer wg.Done()
+					wait(3)
+					for {
+						if i == 0 {
+							if err, ok := s.Get(); ok {
+								if valOf(err) != 9 {
+									atomic.AddInt32(&bad, 1)
+								}
+								return
+							}
+						} else if s.IsSet() {
+							if err := s.Err(); valOf(err) != 9 {
+								atomic.AddInt32(&bad, 1)
+							}
+							return
+						}
+					}
+				}()
+			}
+			go func() { defer wg.Done(); wait(3); s.Set(&valErr{9}) }()
+			wg.Wait()
+			if bad > 0 {
+				fails = append(fails, fmt.Sprintf("round %d: set-implies-value: %d observer(s) saw the Signal set but not the winner's error", round, bad))
+			}
+		case 6: // Chan: Make racing the first Get calls; Close afterwards closes what Get handed out
+			var c drpcsignal.Chan
+			var chs [2]chan struct{}
+			var wg sync.WaitGroup
+			wg.Add(4)
+			for i := 0; i < 2; i++ {
+				i := i
+				go func() { defer wg.Done(); wait(4); chs[i] = c.Get() }()
+				go func() { defer wg.Done(); wait(4); c.Make(1) }()
+			}
+			wg.Wait()
+			c.Close()
+			if chs[0] != chs[1] || c.Get() != chs[0] {
+				fails = append(fails, fmt.Sprintf("round %d: Make racing Get: different channels handed out", round))
+			}
+			for _, ch := range chs {
+				select {
+				case <-ch:
+				default:
+					fails = append(fails, fmt.Sprintf("round %d: Make racing Get: a channel handed out by Get is still open after Close", round))
+				}
+			}
 		case 3: // Chan: first Send racing first Recv racing Make
 			var c drpcsignal.Chan
 			var wg sync.WaitGroup
@@ -606,7 +660,7 @@ func stress(id string, seed uint64, rounds int) runner.Result {
 	}
 	r := runner.Hold(id, id, true)
 	r.Events = n
-	r.Distinct = 5
+	r.Distinct = 7
 	return r
 }
 
@@ -762,7 +816,7 @@ func main() {
 	runner.Main(runner.Check{
 		Property: "C19",
 		Level:    "exploration",
-		Rule:     "one case = one concurrent history: 2-6 goroutines each running 1-3 of Set/Get/Err/IsSet/Signal/Wait/poll on one drpcsignal.Signal (or Get/Get+wait/Close/Send/Recv/Full/Make on one Chan), with one goroutine parked at one of the 7 (Signal) / 2 (Chan) internal points until every other goroutine has finished or blocked, then released; plus spin-barrier stress rounds of the four first-use races (Get vs Close, Signal vs Set, 2 Set vs 2 Signal, Send vs Recv vs Make) and of closed-implies-visible (two pollers and a parked receiver on an existing channel racing Set). Oracles: exactly one Set wins; porcupine linearizability of the recorded history against a write-once register; one channel identity; channel closed once the winning Set / Close returned; census shows no blocked waiter; no panic; race detector silent. Non-trivial: every case (>= 2 goroutines). Distinct: by programs, park point and whether the park was reached.",
+		Rule:     "one case = one concurrent history: 2-6 goroutines each running 1-3 of Set/Get/Err/IsSet/Signal/Wait/poll on one drpcsignal.Signal (or Get/Get+wait/Close/Send/Recv/Full/Make on one Chan), with one goroutine parked at one of the 7 (Signal) / 2 (Chan) internal points until every other goroutine has finished or blocked, then released; plus spin-barrier stress rounds of the four first-use races (Get vs Close, Signal vs Set, 2 Set vs 2 Signal, Send vs Recv vs Make) of closed-implies-visible (two pollers and a parked receiver on an existing channel racing Set), of set-implies-value (pollers of Get / IsSet+Err racing the only Set) and of Make racing the first Get calls. Oracles: exactly one Set wins; porcupine linearizability of the recorded history against a write-once register; one channel identity; channel closed once the winning Set / Close returned; census shows no blocked waiter; no panic; race detector silent. Non-trivial: every case (>= 2 goroutines). Distinct: by programs, park point and whether the park was reached.",
 		Assumptions: []string{
 			"Chan histories never Send/Full/Make after Close (sending on a closed channel panics by Go semantics and the library never does it)",
 			"an open channel observed by a poll concurrent with the winning Set is allowed; a poll that starts after that Set returned must see it closed",
